@@ -63,6 +63,7 @@ var tagChoices = []tagChoice{
 	{`json:"j,omitempty" gerror:"_,print"`, true, "_", []string{"print"}},
 	{`gerror:"_,print,print,clone"`, true, "_", []string{"print", "print", "clone"}},
 	{`json:"only"`, false, "", nil},
+	{`gerror:"_,clone,print" json:"k,omitempty"`, true, "_", []string{"clone", "print"}},
 	{`gerror:"-,print,clone"`, true, "-", []string{"print", "clone"}},
 	{`gerror:"-,clone"`, true, "-", []string{"clone"}},
 	{`gerror:"-x,print"`, true, "-x", []string{"print"}},
@@ -87,12 +88,16 @@ type field struct {
 	Opts    []string `json:"opts"`
 	// Embedded: an anonymous field (the field name is the type name without * and package)
 	Embedded bool `json:"embedded,omitempty"`
+	// JoinNext: declared together with the next field (`A, B int `+"`tag`"+`): same type and tag
+	JoinNext bool `json:"join_next,omitempty"`
 }
 
 type typ struct {
 	Name   string  `json:"name"`
 	Skip   bool    `json:"skip"`
 	Fields []field `json:"fields"`
+	// BasePos: how many of the extra fields are declared BEFORE the embedded gerror.GError
+	BasePos int `json:"base_pos,omitempty"`
 }
 
 func randType(r *rand.Rand, name string, skip bool, nfields int) typ {
@@ -112,6 +117,9 @@ func randType(r *rand.Rand, name string, skip bool, nfields int) typ {
 			}
 		}
 		t.Fields = append(t.Fields, fd)
+	}
+	if nfields > 0 && r.IntN(3) == 0 { // the embedded GError somewhere else than first
+		t.BasePos = 1 + r.IntN(nfields)
 	}
 	return t
 }
@@ -289,6 +297,17 @@ func fixedTypes() []typ {
 		{Name: "E3", Fields: embedStruct(2)},
 		{Name: "E4", Fields: embedStruct(3)},
 		{Name: "E5", Skip: true, Fields: embedStruct(4)},
+		// the embedded gerror.GError is NOT the first field: tagged fields declared before it, around
+		// it, all before it; multi-name declarations; the gerror key before / after another tag key
+		{Name: "P1", BasePos: 1, Fields: orderStruct("B", "C", "P")},
+		{Name: "P2", BasePos: 2, Skip: true, Fields: orderStruct("C", "B", "P")},
+		{Name: "P3", BasePos: 3, Fields: orderStruct("P", "B", "C")},
+		{Name: "P4", BasePos: 2, Fields: []field{
+			{Name: "Lo", Type: "int", Expr: "3", Tag: `gerror:"_,print,clone"`, Tagged: true, TagName: "_", Opts: []string{"print", "clone"}, JoinNext: true},
+			f("Hi", "int", "9", `gerror:"_,print,clone"`, true, "_", "print", "clone"),
+			f("After", "string", `"a"`, `gerror:"after,clone,print" json:"after,omitempty"`, true, "after", "clone", "print"),
+			f("Both", "string", `"b"`, `json:"both" yaml:"both" gerror:"_,clone"`, true, "_", "clone")}},
+		{Name: "P5", BasePos: 4, Skip: true, Fields: embedStruct(3)},
 		{Name: "G3", Fields: []field{ // a print name is text, not a format
 			f("A", "int", "3", `gerror:"pct%d,print,clone"`, true, "pct%d", "print", "clone"),
 			f("B", "string", `"bee"`, `gerror:"50%,print,clone"`, true, "50%", "print", "clone")}},
@@ -303,9 +322,18 @@ func render(ts []typ, skip bool) string {
 		if t.Skip != skip {
 			continue
 		}
-		fmt.Fprintf(&sb, "type %s struct {\n\tgerror.GError\n", t.Name)
-		for _, fd := range t.Fields {
-			decl := fd.Name + " " + fd.Type
+		fmt.Fprintf(&sb, "type %s struct {\n", t.Name)
+		joined := ""
+		for fi, fd := range t.Fields {
+			if fi == t.BasePos {
+				sb.WriteString("\tgerror.GError\n")
+			}
+			if fd.JoinNext && fi+1 < len(t.Fields) && fi+1 != t.BasePos {
+				joined += fd.Name + ", "
+				continue
+			}
+			decl := joined + fd.Name + " " + fd.Type
+			joined = ""
 			if fd.Embedded {
 				decl = fd.Type
 			}
@@ -314,6 +342,9 @@ func render(ts []typ, skip bool) string {
 			} else {
 				fmt.Fprintf(&sb, "\t%s\n", decl)
 			}
+		}
+		if t.BasePos >= len(t.Fields) {
+			sb.WriteString("\tgerror.GError\n")
 		}
 		sb.WriteString("}\n\n")
 		if skip {
